@@ -343,6 +343,7 @@ theorem early_split (cfg : Cfg) {c : Conf} (h : Reach cfg c) :
     | some t => exact step_early_split cfg i c.sh t ih
   | tick ms _ ih => exact ih
   | retire _ _ ih => exact ih
+  | stat b t _ ih => exact ih
 
 theorem early_is_classified (cfg : Cfg) {c : Conf} (h : Reach cfg c) (he : c.sh.early = true) :
     c.sh.earlyNoDl = true ∨ c.sh.earlyStale = true := by
@@ -360,6 +361,55 @@ theorem early_is_classified (cfg : Cfg) {c : Conf} (h : Reach cfg c) (he : c.sh.
 theorem stored_deadline_is_full_timeout (cfg : Cfg) {c : Conf} (h : Reach cfg c) (hf : c.sh.fresh = true) :
     c.sh.openedAt + cfg.timeout ≤ c.sh.deadline :=
   (reach_inv cfg h).time.2.1 hf
+
+/-! ## rule reloads: every breaker object the resource ever had is a breaker in the above sense
+
+`World`: the objects built by successive `LoadRules` (a tuned, stat-reusable rule gives a fresh Closed object sharing
+only the statistic; an equal rule keeps the object); calls are bound to the live object when they start and keep
+acting on it after it has been retired.  `wrun (wstart …)` is what the driver executes for op files with `rd:` items. -/
+
+/-- the words (and monitors) of an object, without the shared statistic and clock -/
+def Obj.words (o : Obj) : St × Nat × Nat × List Note × List Note :=
+  (o.conf.sh.st, o.conf.sh.deadline, o.conf.sh.probe, o.conf.sh.hist, o.conf.sh.log)
+
+/-- A step of a call bound to object `k` leaves the state word, deadline, probe counter, history and listener log of
+    every other object alone (they only share the statistic and the clock): in particular a completion that is still
+    under way on a retired object cannot open, close or re-arm the live one. -/
+theorem world_step_frame (w : World) (k j k' : Nat) (hne : k' ≠ k) :
+    ((w.step k j).objs[k']?).map Obj.words = (w.objs[k']?).map Obj.words := by
+  unfold World.step
+  cases hk : w.objs[k]? with
+  | none => rfl
+  | some o =>
+    unfold World.sync
+    have hset : (w.objs.set k { o with conf := o.conf.sched o.cfg j })[k']? = w.objs[k']? := by
+      simp [List.getElem?_set, Ne.symm hne]
+    cases hk2 : (w.objs.set k { o with conf := o.conf.sched o.cfg j })[k]? with
+    | none => simp only [hk2, hset]
+    | some o2 =>
+      simp only [hk2, List.getElem?_map, hset]
+      cases w.objs[k']? with
+      | none => rfl
+      | some p =>
+        simp only [Option.map_some]
+        split_ifs <;> rfl
+
+/-- Every object of every world reached from a world of breakers — any harness threads, any programs of calls and
+    reloads, any schedule — is a reachable single-breaker configuration: `transition_once`, `log_is_path`,
+    `probe_admissions_eq_transitions`, `no_early_admission_partial`, … hold for the live breaker and for each retired one. -/
+theorem reload_objects_are_breakers (w : World) (h : WOK w) (progs : List (List WCall)) (es : List Ent) :
+    WOK (wrun ⟨(wstart w progs).1, (wstart w progs).2⟩ es).w :=
+  wok_wrun es _ (wok_wstart progs w h)
+
+/-- the first `LoadRules` of a case -/
+theorem first_load_is_breaker (cfg : Cfg) (rid : Nat) : WOK (({} : World).reload cfg rid false) :=
+  wok_reload _ cfg rid false wok_empty
+
+/-- …for instance: on no object, live or retired, is a probe admitted early outside the two classified windows, and
+    each object's transition history is a legal path from Closed -/
+theorem reload_no_early_admission_outside_windows (w : World) (h : WOK w) (o : Obj) (ho : o ∈ w.objs) :
+    o.conf.sh.earlyOut = false ∧ walk .closed o.conf.sh.hist = some o.conf.sh.st :=
+  ⟨no_early_admission_outside_windows o.cfg (h o ho), log_is_path o.cfg (h o ho)⟩
 
 /-! ## non-vacuity -/
 
